@@ -512,6 +512,9 @@ func (a *nilAn) escapesIntoDocument(v ssa.Value) (bool, string) {
 		switch x := r.(type) {
 		case *ssa.Store:
 			if x.Val == v {
+				if fa, ok := x.Addr.(*ssa.FieldAddr); ok && fieldName(fa.X.Type(), fa.Field) == "self" {
+					continue // the snapshot slot: never handed out as a value (R-SELF), only its text is consulted
+				}
 				return true, "stored at " + a.b.posOf(x)
 			}
 		case *ssa.Return:
